@@ -45,6 +45,7 @@ struct Pair {
     typedef Engine<G> E;
     std::unique_ptr<E> e[2];
     EngineOptions eo;
+    double unit = 1.0; // weight unit of the case (2^wexp): detour weights stay on the same grid, so sums stay exact
     StepFacts facts;
     std::string observer, failedOp;
 
@@ -75,7 +76,7 @@ struct Pair {
         if (n > 0 && ghost != 0) {
             for (size_t gi = 0; gi < 4 && gi < keys.size(); ++gi) {
                 long long a = K(gi) % (long long)n, b = K(gi + 1) % (long long)n;
-                Op o = GT<G>::fam == 'W' ? mkw("add", a, b, 1.0 + (K(gi) % 5), 0) : mk("add", {a, b, 0, 1 + K(gi) % 5, 0});
+                Op o = GT<G>::fam == 'W' ? mkw("add", a, b, unit * (1.0 + (K(gi) % 5)), 0) : mk("add", {a, b, 0, 1 + K(gi) % 5, 0});
                 r = stepd(o);
                 if (!r.empty())
                     return r;
@@ -118,7 +119,7 @@ struct Pair {
             ++idx;
             if (GT<G>::fam == 'W') {
                 if (detour) {
-                    r = stepd(mkw("add", a, b, v.w + 1.0, 0));
+                    r = stepd(mkw("add", a, b, v.w + unit, 0));
                     // corrected through setEdgeWeight, named in the other orientation when undirected
                     if (r.empty())
                         r = src.m.directed ? stepd(mkw("setw", a, b, v.w, 0)) : stepd(mkw("setw", b, a, v.w, 0));
@@ -251,6 +252,7 @@ void run(const Case &c, verif_result *out) {
     Pair<G> p;
     p.eo.prop = "C06";
     p.eo.exactWeights = c.get("mode", "exact") != "rounded";
+    p.unit = std::ldexp(1.0, (int)c.geti("wexp", 0));
     std::string cls = c.get("class") + ":" + c.get("label", "none");
     std::string r = p.run(c);
     StepFacts all = p.facts;
